@@ -113,26 +113,33 @@ pub fn prop_dec9(bytes: &[u8]) -> String {
 pub struct Probe {
     pub map: Beatmap,
     pub log: Vec<(String, bool)>,
+    /// section index of every logged call (same order as `log`)
+    pub sections: Vec<u8>,
+    /// the hit objects as parsed, before the finaliser sorts them
+    pub pre_objects: Vec<rosu_map::section::hit_objects::HitObject>,
 }
 pub struct ProbeState {
     inner: BeatmapState,
     log: Vec<(String, bool)>,
+    sections: Vec<u8>,
 }
 impl DecodeState for ProbeState {
     fn create(version: i32) -> Self {
-        Self { inner: BeatmapState::create(version), log: Vec::new() }
+        Self { inner: BeatmapState::create(version), log: Vec::new(), sections: Vec::new() }
     }
 }
 impl From<ProbeState> for Probe {
     fn from(s: ProbeState) -> Self {
-        Probe { map: s.inner.into(), log: s.log }
+        let pre_objects = s.inner.hit_objects.hit_objects.clone();
+        Probe { map: s.inner.into(), log: s.log, sections: s.sections, pre_objects }
     }
 }
 macro_rules! probe_fn {
-    ($name:ident) => {
+    ($name:ident, $idx:expr) => {
         fn $name(state: &mut Self::State, line: &str) -> Result<(), Self::Error> {
             let r = Beatmap::$name(&mut state.inner, line);
             state.log.push((line.to_owned(), r.is_err()));
+            state.sections.push($idx);
             r
         }
     };
@@ -140,17 +147,17 @@ macro_rules! probe_fn {
 impl DecodeBeatmap for Probe {
     type Error = ParseBeatmapError;
     type State = ProbeState;
-    probe_fn!(parse_general);
-    probe_fn!(parse_editor);
-    probe_fn!(parse_metadata);
-    probe_fn!(parse_difficulty);
-    probe_fn!(parse_events);
-    probe_fn!(parse_timing_points);
-    probe_fn!(parse_colors);
-    probe_fn!(parse_hit_objects);
-    probe_fn!(parse_variables);
-    probe_fn!(parse_catch_the_beat);
-    probe_fn!(parse_mania);
+    probe_fn!(parse_general, 0);
+    probe_fn!(parse_editor, 1);
+    probe_fn!(parse_metadata, 2);
+    probe_fn!(parse_difficulty, 3);
+    probe_fn!(parse_events, 4);
+    probe_fn!(parse_timing_points, 5);
+    probe_fn!(parse_colors, 6);
+    probe_fn!(parse_hit_objects, 7);
+    probe_fn!(parse_variables, 8);
+    probe_fn!(parse_catch_the_beat, 9);
+    probe_fn!(parse_mania, 10);
 }
 
 /// C06 on a file given as a list of lines (joined with LF): for every line the section parser
